@@ -1,6 +1,6 @@
 """Which rules exist, which properties are claimed, their floors and evidence texts."""
 
-RULE_MODULES = ['descent', 'null', 'live', 'gate', 'alloc', 'immobile', 'reset']
+RULE_MODULES = ['descent', 'null', 'live', 'gate', 'alloc', 'immobile', 'reset', 'pool', 'stale']
 
 # rules whose instance set legitimately differs between debug and release-like MIR
 CONFIG_DEPENDENT_RULES = {'PANICSITE'}
@@ -27,10 +27,11 @@ table (direction per ordering outcome, record, return-current, initial cursor = 
 reference semantics demands [DESCENT]; the liveness predicate and every branch on it is exactly expiration > time,
 expired nodes are removed and only live ones returned by the gates [LIVE]; every stored key compared and every stored
 value returned comes from a node obtained through an expiry gate called with the operation's own time, with no state
-change in between [GATE]. The behaviour as a whole (all histories) is NOT decided; the search-tree invariant (C02) is
+change in between [GATE]; no index computed before a lazy removal is used after it, except the parent anchor whose
+links are re-read [STALE]. The behaviour as a whole (all histories) is NOT decided; the search-tree invariant (C02) is
 assumed.""",
      ["C02: the tree is a valid search tree after every completed removal"],
-     {'DESCENT': 4, 'LIVE': 4, 'GATE': 12})
+     {'DESCENT': 4, 'LIVE': 4, 'GATE': 12, 'STALE': 20})
 
 prop('C03', """
 Static analysis (MIR/SSA). Decided clause so far: the query iterator tests expiration against the query time with
@@ -89,10 +90,12 @@ prop('C10', """
 Static analysis (MIR/SSA nullness dataflow, interprocedural by call-site meet). Decided clause: every call of an arena
 accessor (node/node_mut = get_unchecked) in the three tree modules and the export file receives an index proven
 != EMPTY_REF by a dominating test, by provenance (allocator result, constant) or by one of 12 reasoned shape-invariant
-exceptions (DESIGN section 4, NULL) [NULL]. Not decided: termination of the repair recursion, arithmetic in the seg
+exceptions (DESIGN section 4, NULL) [NULL]; every index that reaches an accessor or a tree function comes from the
+tree (root, a link), the allocator, the sentinel constant or a caller's handle, never from a computed slot number
+[PROVENANCE]; no index is used after the removal that may have freed or re-labelled its slot [STALE]. Not decided: termination of the repair recursion, arithmetic in the seg
 layout (C14).""",
      ["C02 for the reasoned exceptions (inner child of a rotated node, sibling of a double-black node, non-root has a parent)"],
-     {'NULL': 190})
+     {'NULL': 190, 'PROVENANCE': 150, 'STALE': 20})
 
 prop('C13', """
 Static analysis (MIR/SSA). Decided clauses so far for the expiring-key list: the purge keeps exactly
@@ -149,3 +152,18 @@ alone (peak), never a shift by a non-constant or a product of non-constants; the
 exact-size iterator of its buffer [ALLOC].""",
      ["C11 (slots in use = entries + sentinel)"],
      {'ALLOC': 3})
+
+prop('C11', """
+Static analysis (MIR/SSA, call graph). Decided clauses: per arena, only the removal transaction and clear release slots,
+only new and the linking inserts allocate, and the pool's vectors are mutated only by the pool's own functions; the
+removal releases exactly one slot on every path (one call site, dominating every return, outside any loop, nothing
+after it), namely the removed index or, when a payload was moved in from the in-order successor, that successor's
+slot; a slot taken from the allocator has all its fields initialised and is linked as root or as a child of the node
+recorded as its parent in every caller; the arena grows only under 'free list is empty', by the free list's capacity,
+with buffer and free list extended by the same index range; clear releases the root, empties it, then pass by pass
+exactly the non-empty children of the slots released in the previous pass (counter tied to releases) [POOL]; no
+computed slot number ever reaches the removal or an accessor [PROVENANCE]; no index is used after the removal that
+may have freed it [STALE]. Not decided: the storage bound itself (a stated consequence of grow-only-when-empty, by at
+most the current size).""",
+     ["C02 (a removal's unlinking leaves the slot unreachable from the root)"],
+     {'POOL': 24, 'PROVENANCE': 150, 'STALE': 20})
